@@ -98,7 +98,7 @@ let eval (prim : string) (p : int list) (ops : string list) : string =
   | "max" -> hex_of_n (umax (o 0) (o 1))
   | "smin" -> hex_of_n (smin (pN 0) (o 0) (o 1))
   | "smax" -> hex_of_n (smax (pN 0) (o 0) (o 1))
-  | "bpo2" -> (match m_bpo2 (pnat 0) (o 0) with Some v -> hex_of_n v | None -> "EXCEPTION")
+  | "bpo2" -> hex_of_n (m_bpo2 (pnat 0) (o 0))
   | "ldiv" -> hex_of_n (ldiv (pnat 0) (pN 1) (o 0) (o 1))
   | "sldiv" -> (match sldiv_gen (pnat 0) (pN 1) (o 0) (o 1) with Some v -> hex_of_n v | None -> "EXCEPTION")
   | "ldivp" ->
